@@ -80,6 +80,7 @@ const (
 	fNullItem         = "scenario-null-list-item-panics"
 	fXpathEval        = "var-xpath-evaluation-panics"
 	fStepHuge         = "step-schedule-huge-range-allocates"
+	fYAMLKey          = "scenario-yaml-non-string-key-panics"
 )
 
 // panicSites maps a frame of pandora's code to the finding whose symptom is a panic
@@ -104,6 +105,10 @@ func classifyPanic(p any, stack string) string {
 			}
 			return s.id
 		}
+	}
+	if strings.Contains(stack, "mapstructure.(*Decoder).decodeStructFromMap") && strings.Contains(stack, "scenario/config.DecodeMap") &&
+		strings.Contains(fmt.Sprint(p), "interface conversion") && strings.Contains(fmt.Sprint(p), "not string") {
+		return fYAMLKey
 	}
 	if strings.Contains(stack, "config.SpreadNames") || (strings.Contains(fmt.Sprint(p), "makeslice: cap out of range") && strings.Contains(stack, ".decodeAmmo")) {
 		return fNegativeWeight
@@ -277,20 +282,25 @@ func fuzzVerdict(t *testing.T, err error) {
 // addCorpus seeds a fuzz target from /verif/corpus/c13/<name>/* (raw files); the
 // inline seeds are used when VERIF_ROOT is not set or the directory is empty.
 func addCorpus(f *testing.F, name string, add func(data []byte), inline ...string) int {
+	return addCorpusNamed(f, name, func(_ string, data []byte) { add(data) }, inline...)
+}
+
+// addCorpusNamed also passes the file name (FuzzParsers encodes the parser in it).
+func addCorpusNamed(f *testing.F, name string, add func(file string, data []byte), inline ...string) int {
 	n := 0
 	if root := os.Getenv("VERIF_ROOT"); root != "" {
 		files, _ := filepath.Glob(filepath.Join(root, "corpus", "c13", name, "*"))
 		sort.Strings(files)
 		for _, p := range files {
 			if b, err := os.ReadFile(p); err == nil {
-				add(b)
+				add(filepath.Base(p), b)
 				n++
 			}
 		}
 	}
 	if n == 0 {
 		for _, s := range inline {
-			add([]byte(s))
+			add("", []byte(s))
 		}
 	}
 	return n
